@@ -206,6 +206,9 @@ def saved_consistency(S, b, gaps=False, max_out=16):
         return [("undecodable", "%s: %s" % (type(e).__name__, e))], None
     for k, t in D["problems"]:
         add(k, t)
+    need = (D["end_of_records"] - D["p0"] + 511) // 512
+    if need != D["nblocks"] and not any(k == "params/block_count" for k, _ in D["problems"]):
+        add("params/block_count", "records need %d block(s), the block count says %d" % (need, D["nblocks"]))
     h = D["hdr"]
     if h["zeros"] != 0:
         add("header/leading_zeros", "saved file starts with %d zero bytes" % h["zeros"])
